@@ -7,10 +7,13 @@ set -u
 export GOFLAGS=-mod=mod GOPROXY=off GOSUMDB=off GOTOOLCHAIN=local
 VH="$(cd "$(dirname "$0")/.." && pwd)"
 M="$(cd "$1" && pwd)"; shift
-W="$(mktemp -d /var/tmp/seedwt.XXXXXX)"; OUT="$(mktemp -d /var/tmp/seedout.XXXXXX)"
+# the scratch worktree has a fixed path per slot (SEED_SLOT, default 0): the Go build cache is keyed by source paths, and a
+# fresh random path per run would add a full copy of every package to the cache each time (it grew past 100 GB that way)
+W="/var/tmp/seedwt.slot${SEED_SLOT:-0}"; OUT="$(mktemp -d /var/tmp/seedout.XXXXXX)"
 cleanup() { git -C /repo worktree remove --force "$W" >/dev/null 2>&1; rm -rf "$W" "$OUT"; }
 trap cleanup EXIT
-rmdir "$W"; git -C /repo worktree add -q --detach "$W" HEAD || exit 2
+git -C /repo worktree remove --force "$W" >/dev/null 2>&1; rm -rf "$W"; git -C /repo worktree prune
+git -C /repo worktree add -q --detach "$W" HEAD || exit 2
 cd "$W"
 if ! git apply --3way "$M/patch.diff" 2>"$OUT/apply.log" && ! git apply "$M/patch.diff" 2>>"$OUT/apply.log"; then echo "RESULT apply=FAILED"; cat "$OUT/apply.log"; exit 2; fi
 git reset -q
